@@ -265,9 +265,14 @@ func genSamplers(check string) func(r *Rng, tier string, p *Plan) {
 		nEv := r.Range(1, 5)
 		for i := 0; i < nEv; i++ {
 			at := r.I64n(horizon) / 1000 * 1000
-			switch r.Intn(3) {
+			switch r.Intn(4) {
 			case 0:
 				p.Add(Op{K: "reload", At: at, S: "rules", N: int64(r.Intn(2))})
+			case 1:
+				// a fresh trace (index beyond the others) in some environment, whose
+				// decision makes its worker create the sampler lazily while the peer
+				// list changes
+				p.Add(Op{K: "peers_race", At: at, I: int64(1000 + i), J: int64(r.Intn(4)), S: PickOf(r, "envA", "envB", "envC"), N: int64(PickOf(r, 1, 2, 3, 5, 10))})
 			default:
 				p.Add(Op{K: "peers", At: at, N: int64(PickOf(r, 1, 2, 3, 4, 5, 10, 50))})
 			}
@@ -507,5 +512,5 @@ func init() {
 	Register(&Check{ID: "C12", World: "A/samplers", Gen: genSamplers("C12"), Run: runSamplers, Simplify: simplifySamplers,
 		OwnProbes: []string{"pair_same_definition_across_workers", "pair_different_definition_same_scope", "pair_across_scopes"}, Real: real, Stub: stub})
 	Register(&Check{ID: "C13", World: "A/samplers", Gen: genSamplers("C13"), Run: runSamplers, Simplify: simplifySamplers,
-		OwnProbes: []string{"cluster_size_goal_checked_multi_peer", "fixed_goal_checked", "peer_count_change"}, Real: real, Stub: stub})
+		OwnProbes: []string{"cluster_size_goal_checked_multi_peer", "fixed_goal_checked", "peer_count_change", "peer_lookup_overtaken_by_membership_change"}, Real: real, Stub: stub})
 }
